@@ -111,24 +111,31 @@ class GroundedEffect:
             ):
                 continue
 
-            for state_predicate in next_state_predicates[
-                positive_predicate.lifted_untyped_representation
-            ]:
-                if (
-                    state_predicate.untyped_representation
-                    == positive_predicate.untyped_representation
-                ):
-                    next_state_predicates[
-                        positive_predicate.lifted_untyped_representation
-                    ].discard(state_predicate)
-                    break
+            # the facts are hashed with their types so the same ground fact may appear with different type annotations.
+            matching_facts = [
+                state_predicate
+                for state_predicate in next_state_predicates[
+                    positive_predicate.lifted_untyped_representation
+                ]
+                if state_predicate.untyped_representation
+                == positive_predicate.untyped_representation
+            ]
+            for state_predicate in matching_facts:
+                next_state_predicates[
+                    positive_predicate.lifted_untyped_representation
+                ].discard(state_predicate)
 
         for predicate in add_effects:
             lifted_predicate_str = predicate.lifted_untyped_representation
             next_state_grounded_predicates = next_state_predicates.get(
                 lifted_predicate_str, set()
             )
-            next_state_grounded_predicates.add(predicate)
+            if predicate.untyped_representation not in {
+                state_predicate.untyped_representation
+                for state_predicate in next_state_grounded_predicates
+            }:
+                next_state_grounded_predicates.add(predicate)
+
             next_state_predicates[lifted_predicate_str] = next_state_grounded_predicates
 
     @staticmethod
